@@ -6,6 +6,8 @@
 #if defined __has_include && __has_include(<version>)
 #include <version>
 #endif
+#include <exception>
+#include <utility>
 #include <variant>
 #include "bitserializer/serialization_detail/serialization_options.h"
 #include "bitserializer/serialization_detail/errors_handling.h"
@@ -42,8 +44,22 @@ namespace BitSerializer
 			}
 		}
 
+		/// <summary>
+		/// Stores an error which was detected in a place from where exceptions cannot be thrown (like destructors of archive scopes),
+		/// it will be thrown at the end of serialization (only the first error is kept).
+		/// </summary>
+		void SetDeferredError(std::exception_ptr error) noexcept
+		{
+			if (!mDeferredError) {
+				mDeferredError = std::move(error);
+			}
+		}
+
 		void OnFinishSerialization()
 		{
+			if (mDeferredError) {
+				std::rethrow_exception(std::exchange(mDeferredError, nullptr));
+			}
 			if (!mErrorsMap.empty()) {
 				throw ValidationException(std::move(mErrorsMap));
 			}
@@ -69,6 +85,7 @@ namespace BitSerializer
 
 		StringsVariant mStringValueBuffer;
 		ValidationMap mErrorsMap;
+		std::exception_ptr mDeferredError;
 		const SerializationOptions& mSerializationOptions;
 	};
 }
